@@ -119,6 +119,13 @@ def gen_world(w, n_membranes=(2, 4), small=False):
             membranes.append(twin)
     if len(mixes) >= 2 and w.random() < 0.4:
         mixes[1]["name"] = mixes[0]["name"]
+    if w.random() < 0.35:
+        # a user's own re-fitted mixture that carries the NAME and components of a built-in one
+        bname = w.choice([m.get("mixture") for m in membranes if m.get("mixture")] or ["H2O_EtOH"])
+        c1, c2 = wg.MIXTURES[bname]
+        mixes.append({"name": bname, "first": {"builtin": c1}, "second": {"builtin": c2},
+                      "nrtl": {"g12": wg.rnd(w, -6000, 6000, 2), "g21": wg.rnd(w, -6000, 6000, 2), "alpha12": wg.rnd(w, 0.2, 0.5, 3)},
+                      "uniquac": None, "shadows_builtin": True})
     if len(comps) >= 2 and w.random() < 0.3:
         comps[1]["name"] = comps[0]["name"]
     spec["membranes"] = membranes
@@ -233,6 +240,12 @@ def gen_world(w, n_membranes=(2, 4), small=False):
         pvs.append([mi, {"builtin": w.choice(sorted(wg.MIXTURES))}])       # possibly mismatching mixture
     if w.random() < 0.4:
         pvs.append([w.randrange(len(membranes)), {"custom": w.randrange(len(mixes))}])
+    for k, mx in enumerate(mixes):
+        if mx.get("shadows_builtin"):
+            for mi, m in enumerate(membranes):
+                if m.get("mixture") == mx["name"]:
+                    pvs.append([mi, {"custom": k}])       # the user's mixture used with a membrane whose curves carry the built-in one
+                    break
     spec["pvs"] = pvs
     return spec
 
@@ -269,8 +282,10 @@ def _synth_points(w, npts=None, ntemps=None, endpoints=0.35):
         temps = sorted({int(t) for t in temps})           # temperatures typed as integers (e.g. read from a CSV column of whole numbers)
     noise = w.choice([0.0, 0.01, 0.05])
     pts = []
+    ragged = w.random() < 0.3 and len(temps) > 1
+    wts = [w.choice([1, 1, 2, 6]) for _ in temps]
     for k in range(npts):
-        t = temps[k % len(temps)]
+        t = temps[k % len(temps)] if (not ragged or k < len(temps)) else w.choices(temps, wts)[0]     # ragged: isotherms of very different sizes
         x = round(w.uniform(0.02, 0.95), 5)
         e = sum(a[i] * x ** (i + 1) for i in range(n)) - sum(b[i] * x ** i for i in range(len(b))) / t
         p = alpha * math.exp(e + b[0] / 330.0) * (1 + w.uniform(-noise, noise))
@@ -309,7 +324,9 @@ class Meta:
         mi, mixref = self.pvs[i]
         m = self.membranes[mi]
         own = m.get("mixture_ref") or {"builtin": m.get("mixture")}
-        return {"m": m, "mi": mi, "mixref": mixref, "match": own == mixref, "has_ideal": m.get("has_ideal", False),
+        shadow = "custom" in mixref and self.spec["custom_mixtures"][mixref["custom"]].get("shadows_builtin") and \
+            self.spec["custom_mixtures"][mixref["custom"]]["name"] == m.get("mixture")
+        return {"m": m, "mi": mi, "mixref": mixref, "match": own == mixref or bool(shadow), "has_ideal": m.get("has_ideal", False),
                 "sets": [ci for ci in range(len(self.csets)) if self.base(ci)[0] == mi]}
 
     def set_meta(self, ci):
@@ -611,6 +628,22 @@ def meas_info(M, k):
         return len(ms["points"]), len({p[1] for p in ms["points"]})
     s = M.set_meta(ms["from_set"])
     return s.get("n_points", 10), s["n_curves"]
+
+
+def g_new_mixture(o, M):
+    """A user constructs a Mixture of their own that carries the name of a built-in one (constructor call)."""
+    bname = o.choice(sorted(wg.MIXTURES))
+    c1, c2 = wg.MIXTURES[bname]
+    return {"fn": "new_mixture", "args": {"name": bname, "first_component": {"$c": {"builtin": c1}}, "second_component": {"$c": {"builtin": c2}},
+                                          "nrtl": {"g12": wg.rnd(o, -6000, 6000, 2), "g21": wg.rnd(o, -6000, 6000, 2), "alpha12": wg.rnd(o, 0.2, 0.5, 3)}}}
+
+
+def g_load_membrane(o, M):
+    """Load a membrane directory of the world again (file loader) and report what was loaded."""
+    cands = [m["dir"] for m in M.membranes if not m.get("constructed")]
+    if not cands:
+        return None
+    return {"fn": "load_membrane", "dir": o.choice(cands), "args": {}}
 
 
 def g_pool_measurements(o, M):
